@@ -6,11 +6,12 @@ from harness import comp_history as H
 from harness import run_history as R
 from vlib import core
 
-PROPS = "Props/C19.v"
+PROPS = ["Props/C19.v", "Props/C19run.v"]
 THEOREMS = ["C19_reachable_wf", "C19_record_get", "C19_frame", "C19_grow_padding", "C19_errors_preserve_state",
             "C19_setitem", "C19_no_alias", "C19_env_mutation_invisible", "C19_last_record_wins",
             "C19_unrecorded_is_blank", "C19_record_iteration", "C19_result_keys", "C19_result_copies",
-            "C19_result_fields_readable", "C19_status_unset_refuted_before_fix"]
+            "C19_result_fields_readable", "C19_status_unset_refuted_before_fix",
+            "C19_rows_are_evaluated_pairs", "C19_func_count_nondecreasing", "C19_result_is_last_row", "C19_noisy_result_is_a_row"]
 LEVEL = "proof"
 RULE = ("(a) op sequences on the real IterationHistory / OptimizeResult from one PRNG: known, unknown and deleted keys; "
         "iterations negative / in range / at the end / with a gap / far beyond the end; values int, float, str, numpy scalar, "
@@ -210,6 +211,11 @@ def tie(ctx, broken):
     tie_history(ctx, broken, nh)
     tie_result(ctx, broken, nr)
     tie_runs(ctx, broken)
+    # run-level theorems of Props/C19run.v are about the skeleton model: tie it (with the noisy side conditions) on
+    # the same kind of panel the C05 check uses (traces are shared through the cache)
+    from harness import runlevel as R
+    from props import C05
+    R.tie_skeleton(ctx, broken, [(s, None) for s in C05.specs_for(ctx)], "c19", extra_valid="noisy")
 
 
 def search(ctx, broken):
